@@ -293,6 +293,25 @@ PROPS['C15'] = dict(
     note='Partial: the relation between two whole executions is checked on runs, proved for the reader and the write arithmetic. '
          'Trusted: Coq kernel, model, extraction, harness, reader hook. No axioms.')
 
+PROPS['C13'] = dict(
+    sess=[('sweep_c13', 150, 3000)],
+    twins=[('py_c13', 1200, 12000)],
+    events='wrf', state=['ret', 'ctl', 'rel', 'srv', 'quota', 'h', 'conn', 'live', 'rb', 'pl', 'pid', 'gen', 'cp'],
+    monitors=[M.mon_c13, M.mon_panic],
+    twin_monitors=[M.twin_c13],
+    title='cancelling a cancel-safe operation loses, duplicates and corrupts nothing',
+    claim='Proved in Coq: the unconsumed broker stream (reader buffer followed by the transport queue) is the same byte sequence '
+          'after any read — delivered, dropped, timed out or failed (no inbound byte lost, duplicated or reordered by cancellation); '
+          'a dropped engine step leaves the session untouched or records the step in full; a dropped publish/subscribe is either '
+          'its dropped pre-flush alone (request not applied: no trace) or the request applied in full by a pure function followed '
+          'by a dropped flush, and an applied request is in the arena. REFUTED for disconnect(): C13_disconnect_cancel_refuted '
+          '(known finding K13d). The equality of a cancelled run (future dropped at a chosen I/O call after k calls accepting 1, 2, '
+          '3 or all bytes, the dropped call repeated / followed by drive()) with its uncancelled twin — outbound packet sequence and '
+          'delivered messages — is checked on the implementation and on the model by twin runs.',
+    note='Partial: run-to-run equality is checked, not proved. Trusted: Coq kernel and VM, model, extraction, harness, twin '
+         'construction in lib/pygen.py (which consults the implementation to decide whether the dropped request had been enqueued). '
+         'No axioms.')
+
 TRUSTED_BASE = [
     'Coq 8.16.1 kernel and its bytecode VM (vm_compute); native_compute is not used',
     'axioms: none (every property theorem is reported "Closed under the global context" by Print Assumptions)',
